@@ -223,7 +223,8 @@ class RegistriesWorld:
             pg.nodes.append("B")
             program.append({"id": pg.sid(), "k": "copy_registry"})
         program += [pg.step() for _ in range(size)]
-        return {"world": "registries", "prop": self.prop, "knobs": {"numtype": kr.choice(["float", "float", "Fraction", "Decimal"])},
+        return {"world": "registries", "prop": self.prop, "knobs": {"numtype": kr.choice(["float", "float", "Fraction", "Decimal"]),
+                                                                   "remote": kr.random() < 0.15, "remote_hashseed": kr.randint(1, 999)},
                 "program": program,
                 "faults": {"seed": 0, "rates": {}, "off": []}}
 
@@ -300,6 +301,7 @@ class _Run:
         self.shadow = None  # separately built registry mirroring B
         self.objs = {}
         self.transport = []
+        self.sent_all = []
         self.battery_mem = {}
         self.app_node = "L"
         self.lazy_touched = False
@@ -480,7 +482,18 @@ class _Run:
                 ok = True  # ufloat copies are new random variables: compared by nominal value and std above
             if not ok:
                 raise Violation("C18.roundtrip", s["id"], {"how": how, "kind": kind, "why": "copy != original", "sent": rec["desc"]})
-        # every unit it mentions is usable in the receiving registry
+        if how != "pickle" and got._REGISTRY is not rec["obj"]._REGISTRY:
+            return  # a copy of an unbound-class object that moved with the application registry (see above)
+        # every unit it mentions is usable in the receiving registry: formatting with symbols reads the unit
+        # table directly (no parsing, which would register a missing prefixed unit as a side effect), so it
+        # comes first
+        try:
+            format(got, "~P") if kind != "m" else format(got.units, "~P")
+        except KeyError as e:
+            raise Violation("C18.unit-not-registered", s["id"], {"how": how, "unit": str(e), "exc": "KeyError while formatting",
+                                                                 "node": app_node or rec["node"], "sent": rec["desc"]})
+        except Exception:
+            pass  # formatting problems of other kinds are not this property's business
         for n in self.units_of(rec):
             try:
                 want_reg.get_symbol(n)
@@ -512,6 +525,70 @@ class _Run:
             self.cur = s["id"]
             out = getattr(self, "do_" + s["k"])(s)
             self.col.trans(s["k"], s.get("kind") or s.get("how") or s.get("op") or "", out, len(self.nodes), self.app_node)
+        if self.case.get("knobs", {}).get("remote") and self.sent_all:
+            self.deliver_remote()
+
+    def deliver_remote(self):
+        """Every pickle of the run delivered once more in *another process* under another PYTHONHASHSEED
+        (a byte string can be kept and loaded anywhere): the loaded objects must equal, hash like and
+        be found as dictionary keys like the same objects built there."""
+        import base64
+        import os
+        import subprocess
+        import sys
+
+        msgs = [{"data": base64.b64encode(m["data"]).decode(), "kind": m["rec"]["kind"], "desc": m["rec"]["desc"], "protocol": m["protocol"]}
+                for m in self.sent_all
+                if m["rec"]["kind"] in ("q", "u", "uc") and self.resolvable(self.units_of(m["rec"]), "L")
+                and m["rec"]["desc"].get("magtype", "int") in ("int", "float")][:12]
+        if not msgs:
+            return
+        code = r"""
+import sys, json, base64, pickle
+sys.path.insert(0, sys.argv[1])
+import logging, warnings
+warnings.simplefilter('ignore'); logging.getLogger('pint').setLevel(logging.CRITICAL)
+import pint
+from fractions import Fraction
+msgs = json.load(sys.stdin)
+ureg = pint.get_application_registry().get()
+out = []
+def exp(e):
+    if isinstance(e, str):
+        return Fraction(e[1:]) if e.startswith('D') else Fraction(e)
+    return e
+for m in msgs:
+    try:
+        obj = pickle.loads(base64.b64decode(m['data']))
+    except Exception as e:
+        out.append(['loads-raised', type(e).__name__]); continue
+    uc = obj if m['kind'] == 'uc' else obj._units
+    local = pint.util.UnitsContainer({n: exp(e) for n, e in m['desc']['units']})
+    problems = []
+    if not (uc == local and local == uc):
+        problems.append('container != the same container built here')
+    if hash(uc) != hash(local):
+        problems.append('hash differs from the same container built here')
+    if {local: 1}.get(uc) != 1:
+        problems.append('not found as a dictionary key')
+    out.append(problems)
+print('REMOTE ' + json.dumps(out))
+"""
+        env = dict(os.environ, PYTHONHASHSEED=str(self.case["knobs"]["remote_hashseed"]))
+        p = subprocess.run([sys.executable, "-c", code, core.PINT_PATH], input=json.dumps(msgs), capture_output=True, text=True,
+                           env=env, timeout=300)
+        line = [l for l in p.stdout.splitlines() if l.startswith("REMOTE ")]
+        if p.returncode != 0 or not line:
+            raise HarnessError(f"remote delivery process failed: {p.stderr[-500:]}")
+        res = json.loads(line[0][7:])
+        self.col.fault("delivered_in_another_process", len(res))
+        self.cur = "remote"
+        for m, problems in zip(msgs, res):
+            self.col.checks += 1
+            if problems:
+                raise Violation("C18.roundtrip", "remote", {"how": "pickle, loaded in another process under another hash seed",
+                                                            "kind": m["kind"], "protocol": m["protocol"], "sent": m["desc"],
+                                                            "problems": problems})
 
     def do_make(self, s):
         out = self.make(s)
@@ -531,6 +608,7 @@ class _Run:
                 raise Violation("C18.dumps-raised", s["id"], {"kind": rec["kind"], "protocol": s["protocol"], "exc": exc_name(e),
                                                               "sent": rec["desc"]})
             self.transport.append({"data": data, "rec": rec, "protocol": s["protocol"]})
+            self.sent_all.append(self.transport[-1])
             self.log.ev(s["id"], "send", rec["kind"], s["protocol"], len(data))
             return "queued"
         try:
